@@ -2,6 +2,7 @@ import Tx3Proofs.C02
 import Tx3Proofs.C02Outputs
 import Tx3Proofs.C02Balance
 import Tx3Proofs.C01Optional
+import Tx3Proofs.C01Blocks
 #print axioms Tx3.C02_fee_exact
 #print axioms Tx3.C02_validity_exact
 #print axioms Tx3.C02_mint_range
@@ -24,3 +25,6 @@ import Tx3Proofs.C01Optional
 #print axioms Tx3.C02_balance_mint
 #print axioms Tx3.C02_zero_mint_refused
 #print axioms Tx3.C01_optional_output_kept_iff
+#print axioms Tx3.C02_scalar_shape
+#print axioms Tx3.C02_no_class_refused
+#print axioms Tx3.C02_two_classes_refused
